@@ -97,9 +97,11 @@ func call(entry string, input []byte, readOnly bool, f func()) (ok bool) {
 				wit{Entry: entry, Input: mon.Hex(input), Mutator: curMut, Detail: fmt.Sprintf("%d bytes allocated", d)})
 		}
 	}()
-	var snap []byte
+	// the caller's buffer is all of it: the bytes behind len(input) up to its capacity belong to the caller as well
+	var snap, spare []byte
 	if readOnly {
 		snap = append([]byte{}, input...)
+		spare = append([]byte{}, input[len(input):cap(input)]...)
 	}
 	c.Eval(1)
 	outcome := "returned"
@@ -116,6 +118,12 @@ func call(entry string, input []byte, readOnly bool, f func()) (ok bool) {
 			c.Fail("input-modified: "+entry, fmt.Sprintf("%s modified the caller's %d-byte buffer (first difference at byte %d)", entry, len(input), ref.FirstDiff(snap, input)),
 				wit{Entry: entry, Input: mon.Hex(snap), Mutator: curMut})
 			copy(input, snap)
+		}
+		if readOnly && !bytes.Equal(spare, input[len(input):cap(input)]) {
+			outcome = "input-modified"
+			c.Fail("input-modified: "+entry, fmt.Sprintf("%s wrote into the caller's buffer behind the %d bytes it was given (the slice has capacity %d)", entry, len(input), cap(input)),
+				wit{Entry: entry, Input: mon.Hex(snap), Mutator: curMut, Detail: "spare capacity changed"})
+			copy(input[len(input):cap(input)], spare)
 		}
 		c.Count("outcome." + outcome)
 		if c.Class(entry+"/"+outcome+"/len="+lenClass(len(input))+"/"+curMut) && c.WantSample() && outcome == "returned" && len(input) > 8 && len(input) < 60 && curMut != "none" && !strings.Contains(entry, ".") {
@@ -890,6 +898,8 @@ func run(c *mon.Ctx) {
 	c.Assume("Go's run-time bounds / nil / allocation checks are the memory-safety sanitizer (the library has no cgo or unsafe); bounded means: heap in use stays under 512 MiB and one call uses under 10 s of process CPU time (watchdog in every child; the input is persisted before the call); inputs are at most 64 KiB")
 	c.Watchdog(512<<20, 10*time.Second)
 	c.Floor("outcome.returned", 10000)
+	c.Floor("long_sections.driven", 300)
+	c.Floor("input.front_of_a_larger_buffer", 5000)
 
 	type format struct {
 		name  string
@@ -942,6 +952,11 @@ func run(c *mon.Ctx) {
 			if f.name == "packet" && r.Chance(4) && len(b) >= 12 {
 				r.Fill(b[3:12]) // hostile header / adaptation-field bytes
 				curMut = "random-af-head"
+			}
+			// the input as it is, as a tight copy, or as the front of a larger buffer of the caller's
+			b = r.Slack(b)
+			if cap(b) > len(b) {
+				c.Count("input.front_of_a_larger_buffer")
 			}
 			f.drive(b, r)
 		})
@@ -1186,6 +1201,42 @@ func run(c *mon.Ctx) {
 			b = b[:65536]
 		}
 		driveStream(b, s.pmtPid)
+	})
+	// ---- sections longer than the 12-bit section_length can say (the 16-bit descriptor_loop_length allows them and
+	// the decoder does not compare the two): every total length in windows around 4 KiB, 8 KiB and the 16-bit limit,
+	// for each command type; decoded, queried, printed, re-encoded
+	longTargets := []int{}
+	for _, base := range []int{4096, 8192, 12288, 65536} {
+		for d := -50; d <= 60; d++ {
+			longTargets = append(longTargets, base+d)
+		}
+	}
+	longTargets = append(longTargets, 1000, 2000, 3000, 5000, 16384, 32768, 40000)
+	c.StreamSeedless("scte35-long-sections", c.N(len(longTargets), 3*len(longTargets)), func(k int, r *gen.Rand) {
+		target := longTargets[k%len(longTargets)]
+		sg := ref.GenSig(r, false)
+		sg.Descs, sg.Ptr, sg.Comps = nil, 0, nil
+		sg.Cmd = []byte{0x00, 0x06, 0x05}[(k/len(longTargets)+k)%3]
+		need := target - len(sg.Section())
+		for need >= 6 {
+			n := need
+			if n > 257 {
+				n = 257
+				if need-n < 6 {
+					n = need - 6
+				}
+			}
+			body := append([]byte("CUEI"), r.Bytes(n-6)...)
+			sg.Descs = append(sg.Descs, ref.SegDesc{Foreign: true, Tag: r.PickByte([]byte{0x00, 0x01, 0x03, 0x80, 0xff}), Body: body})
+			need -= n
+		}
+		curMut = "long-section"
+		b := sg.Payload()
+		if len(b) > 65536 {
+			b = b[:65536]
+		}
+		c.Count("long_sections.driven")
+		driveSCTE35(r.Slack(b))
 	})
 	// ---- the CLI on generated files
 	c.Stream("cli", c.N(60, 3000), func(i int, r *gen.Rand) {
